@@ -366,7 +366,7 @@ def execute(case):
         def call():
                 if entry.startswith("av_"):
                     out.probe("av_method")
-                    av = pm.Av(_deliver(perms, cont if cont not in ("gen", "iter", "map", "reversed", "dictkeys", "deque") else "list", op["shuffle"]))
+                    av = pm.Av(_deliver(perms, cont, op["shuffle"]))  # any iterable, one-shot ones included
                     if entry == "av_is_finite":
                         got, exp = av.is_finite(), want["fin"]
                     elif entry == "av_is_polynomial":
